@@ -603,62 +603,54 @@ theorem C17_gen_metamer_mse_history_independent [DecidableEq T] (E : GazeOps T G
 
 /-! ## `MetamericLossUniform.__call__` -/
 
-/-- **history independence of the regenerated `MetamericLossUniform.__call__`, partial**: it needs the hypothesis `hz` that no call has a
-    prepared target equal to `zeros(target.shape)` (a new object takes that tensor for "the target of the previous call") -/
-theorem C17_gen_metameric_loss_uniform_history_independent_partial [DecidableEq T] (E : GazeOps T G R Shape Sub)
+/-- **history independence of the regenerated `MetamericLossUniform.__call__`** (full; up to /repo 20de69e only a partial statement held,
+    see `C17_gen_metameric_loss_uniform_zero_target_first_call_returns`): if `calc_statsmaps` is history-free on its sub-cache and tensor
+    equality is shape + `torch.eq`, then for ANY sequence of calls whose inputs pass `check_loss_inputs` the source never raises and call
+    k returns the documented value for ITS OWN image and target - what a new object returns -/
+theorem C17_gen_metameric_loss_uniform_history_independent [DecidableEq T] (E : GazeOps T G R Shape Sub)
     (cfg : MetamericLossUniformCfg R) (stats : T → List T) (I : Sub → Prop)
     (hcore : ∀ sub, I sub → ∀ x, I (E.uniformStatsCore cfg sub x cfg.pooling_size).1 ∧
       (E.uniformStatsCore cfg sub x cfg.pooling_size).2 = stats x)
     (hext : ∀ a b : T, a = b ↔ (E.shape a = E.shape b ∧ E.allEq b a = true))
     (sub : Sub) (hsub : I sub) (calls : List (MUArgs T))
-    (hok : ∀ x ∈ calls, E.inputsOk x.image x.target = true ∧ E.zeros (E.shape (muKey E cfg x)) ≠ muKey E cfg x) :
+    (hok : ∀ x ∈ calls, E.inputsOk x.image x.target = true) :
     (∃ s', runSteps (muStep E cfg) (MetamericLossUniformSelf.init sub) calls = some (s', calls.map (muFresh E cfg stats))) ∧
     ∀ x ∈ calls, (muStep E cfg (MetamericLossUniformSelf.init sub) x).map Prod.snd = some (muFresh E cfg stats x) := by
-  have step : ∀ s x, (∃ c lm sub, s = muToSelf c lm sub ∧ KeyedInv stats c ∧ I sub) →
-      (E.inputsOk x.image x.target = true ∧ E.zeros (E.shape (muKey E cfg x)) ≠ muKey E cfg x) →
+  have step : ∀ s x, (∃ c lm sub, s = muToSelf c lm sub ∧ KeyedInv stats c ∧ I sub) → E.inputsOk x.image x.target = true →
       ∃ s', muStep E cfg s x = some (s', muFresh E cfg stats x) ∧ ∃ c lm sub, s' = muToSelf c lm sub ∧ KeyedInv stats c ∧ I sub := by
-    rintro s x ⟨c, lm, sub, rfl, hc, hs⟩ ⟨hx, hz⟩
-    obtain ⟨lm', sub', log, hs', e, _⟩ := gen_metamericLossUniformCallG_eq E cfg stats I hcore hext c lm sub hs x hx (fun _ => hz)
+    rintro s x ⟨c, lm, sub, rfl, hc, hs⟩ hx
+    obtain ⟨lm', sub', log, hs', e, _⟩ := gen_metamericLossUniformCallG_eq E cfg stats I hcore hext c lm sub hs x hx
     obtain ⟨h1, h2⟩ := cacheStep_spec stats c hc (muKey E cfg x)
     refine ⟨_, ?_, _, lm', sub', rfl, h1, hs'⟩
     simp only [muStep, e, Option.map_some, h2]; rfl
   have init : ∃ c lm sub', (MetamericLossUniformSelf.init sub : MetamericLossUniformSelf T G R Shape Sub) = muToSelf c lm sub' ∧
       KeyedInv stats c ∧ I sub' := ⟨none, none, sub, rfl, keyedInv_none _, hsub⟩
   constructor
-  · obtain ⟨s', e, _⟩ := runSteps_of_invariant (muStep E cfg) _
-      (fun x => E.inputsOk x.image x.target = true ∧ E.zeros (E.shape (muKey E cfg x)) ≠ muKey E cfg x) (muFresh E cfg stats) step calls _ init hok
+  · obtain ⟨s', e, _⟩ := runSteps_of_invariant (muStep E cfg) _ (fun x => E.inputsOk x.image x.target = true) (muFresh E cfg stats)
+      step calls _ init hok
     exact ⟨s', e⟩
   · intro x hx
     obtain ⟨s', e, _⟩ := step _ x init (hok x hx)
     rw [e]; rfl
 
-/-- why `hz` is needed (the regenerated source, not the hand model): on a NEW `MetamericLossUniform` object a call whose prepared target
-    is all zeros raises (the statistics of the target were never computed), while the same call after a call with another target
-    returns the documented value - the value of that call depends on the history -/
-theorem C17_gen_metameric_loss_uniform_zero_target_depends_on_history [DecidableEq T] (E : GazeOps T G R Shape Sub)
+/-- the case the source failed on up to /repo 20de69e (a new object compared the target with `zeros(target.shape)`, found "nothing
+    changed" for an all-zero prepared target, skipped `calc_statsmaps` and raised on the unset `target_stats`; the regenerated model of
+    that source proved `… = none` here): on a NEW object the first call refreshes WHATEVER the prepared target is - in particular when
+    it equals `zeros(target.shape)` - stores `target_stats`, and returns the documented value -/
+theorem C17_gen_metameric_loss_uniform_zero_target_first_call_returns [DecidableEq T] (E : GazeOps T G R Shape Sub)
     (cfg : MetamericLossUniformCfg R) (stats : T → List T) (I : Sub → Prop)
     (hcore : ∀ sub, I sub → ∀ x, I (E.uniformStatsCore cfg sub x cfg.pooling_size).1 ∧
       (E.uniformStatsCore cfg sub x cfg.pooling_size).2 = stats x)
     (hext : ∀ a b : T, a = b ↔ (E.shape a = E.shape b ∧ E.allEq b a = true))
-    (sub : Sub) (hsub : I sub) (x y : MUArgs T) (hx : E.inputsOk x.image x.target = true) (hy : E.inputsOk y.image y.target = true)
-    (hvx : x.visualise_loss = false)
-    (hzero : muKey E cfg x = E.zeros (E.shape (muKey E cfg x))) (hynz : E.zeros (E.shape (muKey E cfg y)) ≠ muKey E cfg y) :
-    muStep E cfg (MetamericLossUniformSelf.init sub) x = none ∧
-    ∃ s', runSteps (muStep E cfg) (MetamericLossUniformSelf.init sub) [y, x] = some (s', [muFresh E cfg stats y, muFresh E cfg stats x]) := by
-  constructor
-  · have h := (hext _ _).1 hzero
-    have := gen_metamericLossUniform_zero_target_first_call_raises E cfg none sub x hvx (by rw [← hzero]) (by rw [← hzero] at h ⊢; exact h.2)
-    simp only [muStep]
-    have e : (MetamericLossUniformSelf.init sub : MetamericLossUniformSelf T G R Shape Sub) = muToSelf none none sub := rfl
-    rw [e, this]; rfl
-  · obtain ⟨lm1, sub1, log1, hs1, e1, _⟩ := gen_metamericLossUniformCallG_eq E cfg stats I hcore hext none none sub hsub y hy (fun _ => hynz)
-    obtain ⟨lm2, sub2, log2, hs2, e2, _⟩ := gen_metamericLossUniformCallG_eq E cfg stats I hcore hext
-      (cacheStep stats none (muKey E cfg y)).1 lm1 sub1 hs1 x hx (fun h => by simp [cacheStep] at h)
-    have i0 : (MetamericLossUniformSelf.init sub : MetamericLossUniformSelf T G R Shape Sub) = muToSelf none none sub := rfl
-    obtain ⟨k1, k2⟩ := cacheStep_spec stats none (keyedInv_none _) (muKey E cfg y)
-    obtain ⟨_, k4⟩ := cacheStep_spec stats _ k1 (muKey E cfg x)
-    refine ⟨muToSelf (cacheStep stats (cacheStep stats none (muKey E cfg y)).1 (muKey E cfg x)).1 lm2 sub2, ?_⟩
-    simp only [runSteps, muStep, i0, e1, e2, Option.map_some, Option.bind_some, k2, k4]; rfl
+    (sub : Sub) (hsub : I sub) (x : MUArgs T) (hx : E.inputsOk x.image x.target = true)
+    (hzero : muKey E cfg x = E.zeros (E.shape (muKey E cfg x))) :
+    ∃ r, metamericLossUniformCallG E cfg (MetamericLossUniformSelf.init sub) x.image x.target x.image_colorspace x.visualise_loss = some r ∧
+      r.2.1 = muFresh E cfg stats x ∧ "target_stats" ∈ r.2.2 ∧ r.1.target = some (E.zeros (E.shape (muKey E cfg x))) := by
+  obtain ⟨lm', sub', log, _, e, hl⟩ := gen_metamericLossUniformCallG_eq E cfg stats I hcore hext none none sub hsub x hx
+  have i0 : (MetamericLossUniformSelf.init sub : MetamericLossUniformSelf T G R Shape Sub) = muToSelf none none sub := rfl
+  refine ⟨_, by rw [i0]; exact e, ?_, hl.2 (by simp [cacheMiss]), ?_⟩
+  · simp [cacheStep, muFresh, muKey]
+  · rw [← hzero]; simp [cacheStep, muToSelf]
 
 /-! ## the fovea mask of `MetamericLoss.calc_statsmaps` -/
 
